@@ -396,8 +396,52 @@ def string_origins(ctx):
     return first
 
 
+def nonconvex_outlines(ctx):
+    """stored orientation of NON-CONVEX outlines with long edges at their reflex corners and short ones at the convex corners
+    (a plus / asterisk of thin boxes given by their four corners, a pentagram, an L given by six corners), as built, given
+    clockwise, and after every transform and copy: closed, counter-clockwise, area preserved"""
+    from tdgl.geometry import box
+
+    first = None
+
+    def fail(key, what, **extra):
+        nonlocal first
+        rp = dict(check="nonconvex_outlines", **extra)
+        ctx.fail(key, what, rp)
+        if first is None:
+            first = dict(key=key, what=what, **rp)
+
+    shapes = {}
+    for arms in (2, 3):
+        u = tdgl.Polygon("arm0", points=box(6.0, 0.4, points=4))
+        for a in range(1, arms):
+            u = u.union(tdgl.Polygon(f"arm{a}", points=box(6.0, 0.4, points=4, angle=180.0 * a / arms)))
+        shapes[f"asterisk_{arms}_thin_boxes"] = u
+    ang = np.pi / 2 + 2 * np.pi * np.arange(10) / 10
+    rad = np.where(np.arange(10) % 2 == 0, 3.0, 0.6)
+    star = np.stack([rad * np.cos(ang), rad * np.sin(ang)], axis=1)
+    shapes["pentagram"] = tdgl.Polygon("star", points=star)
+    shapes["pentagram_given_clockwise"] = tdgl.Polygon("star_cw", points=star[::-1])
+    plus12 = np.array([(1, -1), (6, -1), (6, 1), (1, 1), (1, 6), (-1, 6), (-1, 1), (-6, 1), (-6, -1), (-1, -1), (-1, -6), (1, -6)], dtype=float)
+    shapes["plus_sign_12_corners"] = tdgl.Polygon("plus", points=plus12)          # the witness of Lean C18_sum_of_turns_counterexample
+    shapes["plus_sign_given_clockwise"] = tdgl.Polygon("plus_cw", points=plus12[::-1])
+    for name, p_ in shapes.items():
+        a0 = abs(signed_area(p_.points))
+        variants = {"as built": p_, "copy": p_.copy(), "rotated 37": p_.rotate(37.0), "translated": p_.translate(dx=2.0, dy=-1.0),
+                    "scaled (-1, 2)": p_.scale(xfact=-1.0, yfact=2.0), "resampled": p_.resample(60)}
+        for vname, q_ in variants.items():
+            ctx.case(("nonconvex", name, vname), nontrivial=True)
+            ctx.count("nonconvex_outlines_checked")
+            check_stored(ctx, q_, f"{name}, {vname}", fail)
+            fac = 2.0 if vname.startswith("scaled") else 1.0
+            if vname != "resampled" and abs(abs(signed_area(q_.points)) - fac * a0) > 1e-9 * a0:
+                fail("area-changed", f"{name}, {vname}: area {abs(signed_area(q_.points)):.6g}, expected {fac * a0:.6g}")
+    return first
+
+
 def run(ctx):
     n = 12 if ctx.quick else 150
+    nonconvex_outlines(ctx)
     for _ in range(n):
         eval_pair(ctx, ctx.rng)
     device_membership(ctx, ctx.rng)
